@@ -266,7 +266,7 @@ harness("C07.rowwise", jobs, sym, conc)
 
 # ------------------------------------------------------------------ the same operations on a lazily selected operand (relational)
 def _view_ops():
-    return {"cumsum": lambda d: np.cumsum(d, axis=-1), "acc_add": lambda d: np.add.accumulate(d, axis=-1), "sort": lambda d: d.sort(axis=-1),
+    return {"cumsum": lambda d: np.cumsum(d, axis=-1), "cumsum_m": lambda d: d.cumsum(axis=-1), "acc_add": lambda d: np.add.accumulate(d, axis=-1), "sort": lambda d: d.sort(axis=-1),
             "unique_counts": lambda d: np.unique(d, axis=-1, return_counts=True), "diff": lambda d: np.diff(d, axis=-1), "diff2": lambda d: np.diff(d, n=2, axis=-1)}
 
 
